@@ -27,6 +27,15 @@ RULE = (
     "comparators identical except for ONE int / bool / object ndarray of extra (top level or nested) of a different shape on each "
     "side - broadcast-compatible ([1]|[k], 0-d|1-d, [k,k]|[k], [0]|[1], most often one repeated value) or not ([k]|[k+1], [0]|[k]) - "
     "asked from both sides; "
+    "a FIXED SHARE of every run: (i) pairs differing in ONE float member (dm weights / matrix cell; a result's extra: float ndarray "
+    "cell 1-d / 2-d / nested, float scalar; the same inside a comparator) by a tiny non-zero absolute amount - decimal arithmetic vs "
+    "the literal (0.1+0.2 | 0.3), neighbouring doubles below 2 and above 4, 2-4 units in the last place, two very small values "
+    "(1e-20 | 3e-20, 1e-300 | 2e-300, subnormals) - every kind in every slot in turn, compared with ==, !=, equals (exact: rtol = "
+    "atol = 0: unequal) and aequals / diff without tolerance (names exactly that member), from both sides; (ii) rank / kernel results "
+    "and comparators holding them identical in method, values and extra whose alternatives are the same labels (strings, whole "
+    "numbers) in another order (two swapped, reversed, rotated, shuffled): unequal at every tolerance, diff names `alternatives` "
+    "(`ranks`), from both sides; for every pair ==, equals must answer what aequals / diff(rtol=0, atol=0, equal_nan=False, "
+    "check_dtypes=True) answer; "
     "numeric members changed by 0.37x (within) or 2.7x (beyond) a design tolerance drawn from the grid; different "
     "shapes / lengths including 1 (broadcasting) and 0; unrelated types (dm / rank / kernel / comparator / int / None / str / list / "
     "float / dict / ndarray); unrelated random pairs of the same kind; pairs with NaN. Every pair is compared at its design tolerance "
@@ -582,6 +591,11 @@ def _is_err(v):
     return isinstance(v, dict) and "err" in v
 
 
+def _zero_tol(t):
+    """is `t` the keyword set of the exact comparisons (rtol=0, atol=0, equal_nan=False, check_dtypes=True)?"""
+    return t[0] == 0 and t[1] == 0 and not t[2] and bool(t[3])
+
+
 def _changed_state(case, t):
     """for relation 'one_member' with a numeric change: state of the changed cells at tolerance t"""
     ch = case.get("change")
@@ -644,6 +658,14 @@ def judge(case, obs, replies):
         d = o["diff"]
         if o["aequals"] != (not (d["different_types"] or d["members"])):
             prop(f"aequals disagrees with diff ({nm})", not (d["different_types"] or d["members"]), o["aequals"])
+    # ---------------- the exact comparisons ARE the comparison without tolerance (equals "calls aequals() without tolerance":
+    #                  rtol=0, atol=0, equal_nan=False, check_dtypes=True): ==, equals answer what aequals / diff answer there
+    for nm, t, o in list(zip(names, tols, per))[1:]:
+        if _zero_tol(t):
+            d = o["diff"]
+            if o["aequals"] != eq or (not (d["different_types"] or d["members"])) != eq:
+                prop(f"`x == y` disagrees with aequals / diff without tolerance ({nm})", {"x == y": eq},
+                     {"aequals": o["aequals"], "diff": d})
     # ---------------- (b) an object equals itself, its copy, an identically constructed object
     if rel in ("identical", "copy", "same_ctor") and (finite or rel == "identical"):
         if eq is not True or ne is not False:
@@ -723,6 +745,24 @@ def judge(case, obs, replies):
                 d = o["diff"]
                 if o["aequals"] != (not (d["different_types"] or d["members"])):
                     prop(f"aequals disagrees with diff on (y, x) ({nm})", not (d["different_types"] or d["members"]), o["aequals"])
+            for nm, t, o in list(zip(names, tols, per_rev))[1:]:
+                if _zero_tol(t):
+                    d = o["diff"]
+                    if o["aequals"] != eq_rev or (not (d["different_types"] or d["members"])) != eq_rev:
+                        prop(f"`y == x` disagrees with aequals / diff without tolerance ({nm})", {"y == x": eq_rev},
+                             {"aequals": o["aequals"], "diff": d})
+            if rel == "one_member" and (case.get("change") or {}).get("numeric") is not None \
+                    and _changed_state(case, [0.0, 0.0]) != "same":
+                # a numeric member was changed by a non-zero amount: without tolerance (|a-b| <= 0 from either side) the pair
+                # is unequal from the other side too, and diff names that member
+                member = case["member"]
+                if eq_rev is not False:
+                    prop(f"only `{member}` was changed, but `y == x`", False, eq_rev)
+                for nm, t, o in zip(names, tols, per_rev):
+                    if t[0] == 0 and t[1] == 0 and (
+                            o["aequals"] is not False or o["diff"]["members"] != [member] or o["diff"]["different_types"]):
+                        prop(f"only `{member}` was changed (no tolerance), diff(y, x) names {o['diff']['members']} / "
+                             f"aequals={o['aequals']} ({nm})", [member], o["diff"])
             exact_change = rel == "one_member" and (case.get("change") or {}).get("numeric") is None
             if exact_change:
                 # a member compared exactly was changed: the pair is unequal from either side, and diff names that member
@@ -838,6 +878,10 @@ def tags(case, obs):
         t.append("after-history:" + case["relation"] + ":" + str(case["right"].get("how", case["right"].get("o"))))
     if case.get("xshape"):
         t.append("extra-array-shapes:" + case["xshape"])
+    if case.get("tiny"):
+        t.append("tiny-float-change:" + case["tiny"])
+    if case.get("altperm"):
+        t.append("alternatives-reordered:" + case["altperm"])
     if not case.get("finite", True):
         t.append("has-nan")
     if obs.get("_skipped_near"):
@@ -1444,6 +1488,148 @@ def _change_result(rng, spec, member):
     return left, right, ch
 
 
+# ---- pairs differing in ONE float member by a tiny non-zero amount (the exact comparisons ==, !=, equals have rtol = atol = 0)
+
+TINY_KINDS = ["sum-vs-literal", "next-float-below-2", "few-ulps", "tiny-values", "next-float-large"]
+TINY_SLOTS = ["dm:weights", "dm:matrix", "result:extra-array", "result:extra-float", "result:extra-nested-array",
+              "result:extra-2d-array", "rcmp:extra-array", "rcmp:extra-float"]
+
+
+def _ulps(x, k):
+    """the double `k` representable steps above (k > 0) / below (k < 0) x"""
+    for _ in range(abs(k)):
+        x = math.nextafter(x, math.inf if k > 0 else -math.inf)
+    return x
+
+
+def _tiny_pair(rng, kind):
+    """(a, b): two positive finite doubles, a != b, whose difference is tiny in absolute terms (one or a few units in the last
+    place, or two very small values of any ratio) - or one unit in the last place of a larger number"""
+    if kind == "sum-vs-literal":  # the results of decimal arithmetic vs the decimal literal
+        a, b = rng.choice([(0.1 + 0.2, 0.3), (0.1 * 3, 0.3), (0.7 + 0.1, 0.8), (0.3 - 0.1, 0.2), (1 - 0.9, 0.1), (1.1 + 2.2, 3.3),
+                           (0.1 + 0.2 + 0.3, 0.6), (1.0 / 49 * 49, 1.0)])
+    elif kind == "next-float-below-2":
+        a = rng.choice([0.5, 1.0, 0.25, 1.5, 0.3, 0.1, rng.uniform(0.01, 2.0), rng.randint(1, 15) / 8])
+        b = _ulps(a, rng.choice([1, -1]))
+    elif kind == "few-ulps":
+        a = rng.choice([0.5, 1.0, 0.75, 0.2, rng.uniform(0.01, 1.0), rng.uniform(0.5, 1.0)])
+        b = _ulps(a, rng.choice([2, 3, 4, -2, -3]))
+    elif kind == "tiny-values":
+        a, b = rng.choice([(1e-20, 3e-20), (1e-300, 2e-300), (2.5e-17, 1e-16), (1e-17, 1e-30), (1e-310, 3e-310),
+                           (math.ldexp(1.0, -60), math.ldexp(1.0, -61)), (1e-18, 1.5e-18)])
+    else:
+        a = math.ldexp(rng.uniform(0.5, 1.0), rng.randint(2, 9))
+        b = _ulps(a, rng.choice([1, -1]))
+    assert a != b and a > 0 and b > 0
+    return (a, b) if rng.random() < 0.5 else (b, a)
+
+
+def _tiny_extra(rng, spec, where, a, b):
+    """(left, right): the result `spec` twice, ONE float of extra being `a` on the left and `b` on the right"""
+    left = _copy.deepcopy(spec)
+    n = len(spec["alternatives"])
+    target, path = left["extra"], []
+    if where == "extra-nested-array":
+        left["extra"]["sub"] = {"t": "dict", "v": gen_extra(rng, n, depth=1)}
+        target, path = left["extra"]["sub"]["v"], ["sub"]
+    family = rng.choice(["dyadic", "float"])
+    if where == "extra-float":
+        key = rng.choice(["q", "tv", "k"])
+        target[key] = {"t": "float", "v": a}
+        pos = None
+    elif where == "extra-2d-array":
+        key = rng.choice(["matrix_c", "tv"])
+        p, q = rng.randint(1, 3), rng.randint(1, 3)
+        target[key] = {"t": "farr", "shape": [p, q], "data": [_fval(rng, family) for _ in range(p * q)]}
+        pos = rng.randrange(p * q)
+    else:
+        key = rng.choice(["score", "s", "ideal", "tv"])
+        ln = max(n, 1) if rng.random() < 0.7 else rng.randint(1, 4)
+        target[key] = {"t": "farr", "shape": [ln], "data": [_fval(rng, family) for _ in range(ln)]}
+        pos = rng.randrange(ln)
+    if pos is not None:
+        target[key]["data"][pos] = a
+    right = _copy.deepcopy(left)
+    t = right["extra"]
+    for p in path:
+        t = t[p]["v"]
+    if pos is None:
+        t[key]["v"] = b
+    else:
+        t[key]["data"][pos] = b
+    return left, right
+
+
+def _tiny_case(rng, slot, a, b):
+    """(left, right, member): a pair of objects identical except for ONE float (a on the left, b on the right) held in `slot`"""
+    holder, where = slot.split(":")
+    if holder == "dm":
+        left = gen_dm(rng, m=rng.choice([1, 2, 3, 4]), n=rng.choice([1, 2, 3, 4]), allow_special=False)
+        m, n = len(left["matrix"]), len(left["criteria"])
+        j = rng.randrange(n)
+        right = None
+        if where == "weights":
+            left["weights"][j] = a
+            right = _copy.deepcopy(left)
+            right["weights"][j] = b
+        else:
+            if left["colkinds"][j] != "float":
+                left["colkinds"][j] = "float"
+                for row in left["matrix"]:
+                    row[j] = _fval(rng, "float")
+            i = rng.randrange(m)
+            left["matrix"][i][j] = a
+            right = _copy.deepcopy(left)
+            right["matrix"][i][j] = b
+        return left, right, where
+    if holder == "result":
+        left, right = _tiny_extra(rng, gen_result(rng, n=rng.choice([1, 2, 3, 4, 5])), where, a, b)
+        return left, right, "extra_"
+    left = gen_rcmp(rng, n=rng.choice([1, 2, 3, 4]))
+    i = rng.randrange(len(left["ranks"]))
+    li, ri = _tiny_extra(rng, left["ranks"][i][1], where, a, b)
+    left["ranks"][i][1] = li
+    right = _copy.deepcopy(left)
+    right["ranks"][i][1] = ri
+    return left, right, "ranks"
+
+
+# ---- results identical except for the ORDER of their alternatives
+
+PERMS = ["swap", "reverse", "rotate", "shuffle"]
+
+
+def _reorder(rng, xs, how):
+    """the distinct labels `xs` (two or more) in another order"""
+    n = len(xs)
+    ys = list(xs)
+    if how == "swap":
+        i, j = rng.sample(range(n), 2)
+        if rng.random() < 0.5:
+            i = rng.randrange(n - 1)
+            j = i + 1
+        ys[i], ys[j] = ys[j], ys[i]
+    elif how == "reverse":
+        ys.reverse()
+    elif how == "rotate":
+        k = rng.randint(1, n - 1)
+        ys = ys[k:] + ys[:k]
+    else:
+        while ys == list(xs):
+            rng.shuffle(ys)
+    assert ys != list(xs) and sorted(map(str, ys)) == sorted(map(str, xs))
+    return ys
+
+
+def _whole_number_labels(rng, n):
+    p = rng.random()
+    if p < 0.4:
+        return list(range(n))
+    if p < 0.6:
+        return list(range(1, n + 1))
+    return rng.sample(range(0, 40), n)
+
+
 def _mk(relation, left, right, tols, **kw):
     c = {"relation": relation, "left": left, "right": right, "tols": tols}
     c.update(kw)
@@ -1686,4 +1872,47 @@ def gen(ctx):
             cases.append(_mk(rel, left, right, _tols(ctx, rng), finite=False))
         else:
             cases.append(_mk("random", left, gen_obj(rng, kind), _tols(ctx, rng)))
+
+    # 6. (a fixed share of every run) ONE float member changed by a tiny non-zero absolute amount - neighbouring doubles, a few
+    #    units in the last place, the result of decimal arithmetic vs the literal, two very small values: the exact comparisons
+    #    (==, !=, equals: rtol = atol = 0) say unequal, like aequals / diff without tolerance, which names that member; from both
+    #    sides.  Every kind of change in every float-holding slot in turn.
+    for it in range(ctx.n(40, 640)):
+        kind = TINY_KINDS[it % len(TINY_KINDS)]
+        slot = TINY_SLOTS[it % len(TINY_SLOTS)]  # 5 and 8 are coprime: all 40 combinations in 40 iterations
+        a, b = _tiny_pair(rng, kind)
+        left, right, member = _tiny_case(rng, slot, a, b)
+        cases.append(_mk("one_member", left, right, _tols(ctx, rng, (0.0, 0.0)), member=member, both_ways=True,
+                         change={"numeric": [[a, b]], "design_tol": [0.0, 0.0], "design": "tiny:" + kind}, tiny=slot))
+
+    # 7. (a fixed share of every run) two rank / kernel results - also inside comparators - identical in method, values and extra
+    #    whose alternatives are the SAME labels in another order (two swapped, reversed, rotated, shuffled; strings and whole
+    #    numbers): exactly the member `alternatives` differs, at every tolerance, from both sides
+    for it in range(ctx.n(36, 600)):
+        how = PERMS[it % len(PERMS)]
+        holder = ["rank", "kernel", "rcmp"][it % 3]
+        labels = "int" if (it + it // 12) % 2 == 0 else "str"  # every (order, holder, labels) combination within 24 iterations
+        if holder == "rcmp":
+            n = rng.choice([2, 3, 4])
+            left = gen_rcmp(rng, n=n)
+            if labels == "int":
+                old = left["ranks"][0][1]["alternatives"]
+                new = dict(zip(old, _whole_number_labels(rng, n)))
+                for _, r in left["ranks"]:
+                    r["alternatives"] = [new[x] for x in r["alternatives"]]
+            right = _copy.deepcopy(left)
+            i = rng.randrange(len(left["ranks"]))
+            which = range(len(left["ranks"])) if rng.random() < 0.25 else [i]  # one ranking, or every ranking
+            for i in which:
+                right["ranks"][i][1]["alternatives"] = _reorder(rng, left["ranks"][i][1]["alternatives"], how)
+            member = "ranks"
+        else:
+            n = rng.choice([2, 3, 3, 4, 5])
+            alts = _whole_number_labels(rng, n) if labels == "int" else rng.sample(ALT_POOL, n)
+            left = gen_result(rng, n=n, typ=holder, alts=alts)
+            right = _copy.deepcopy(left)
+            right["alternatives"] = _reorder(rng, alts, how)
+            member = "alternatives"
+        cases.append(_mk("one_member", left, right, _tols(ctx, rng), member=member, change={}, both_ways=True,
+                         altperm="%s:%s:%s" % (holder, labels, how)))
     return cases
